@@ -16,6 +16,13 @@ FILES = {
     "semerr.c": "int x;\nvoid f(void) { x.y; }\n",
     "amb.c": "void f(void) { T * x; /** doc */ a(b); }\n",
     "pre.i": "typedef int T; T y;\n",
+    # mixtures of severities within one phase (the exit status must not depend on their order)
+    "synerrwarn.c": "int x = ;\nint a[2] = { [0] 1 };\n",
+    "synwarnerr.c": "int a[2] = { [0] 1 };\nint x = ;\n",
+    "synwarn.c": "int a[2] = { [0] 1 };\n",
+    "semerrwarn.c": "int f(void)(void);\nint;\n",
+    "semwarnerr.c": "int;\nint f(void)(void);\n",
+    "semwarn.c": "int;\n",
 }
 STD = [None, "c89", "c90", "c99", "c11", "c17", "c18"]
 DIS = [None, "a", "h", "ah", "none"]
@@ -65,7 +72,7 @@ def run(ctx):
         verdict = {k: tuple(int(x) for x in l.split()) for k, l in zip(vkeys, out.split("\n"))}
 
         cases = []          # (argv, files involved)
-        fileset = ["valid.c", "synerr.c", "semerr.c", "amb.c", "pre.i"]
+        fileset = list(FILES)
         for s, d, c, so, da in itertools.product(STD, DIS, COM, [False, True], [False, True]):
             for f in fileset:
                 argv = []
@@ -177,8 +184,8 @@ def run(ctx):
         ctx.cov.update({
             "evaluations": len(cases), "distinct_nontrivial": len({tuple(c[0]) for c in cases[:ndoc] if True}),
             "traces_validated_against_impl": len(cases), "exhaustive": True,
-            "rule": "real cnip executable on the full cross product {-std: 6 values + default} x {-disambiguation: 4 + default} x {-comment: 3 + default} x {-fsyntax-only} x {-dump-ast} x -pp none x 5 files (valid, syntax error, semantic error, ambiguity+doc comment, preprocessed .i) = %d runs (exhaustive); -pp s / r / default through gcc: %s; multi-file and option-override cases; %d malformed or undocumented argument vectors (fixed list + seeded random); non-trivial = distinct documented command lines"
-                    % (npp_none, "160 sampled" if ctx.quick else "complete (%d)" % len(pp_cases), len(cases) - ndoc),
+            "rule": "real cnip executable on the full cross product {-std: 6 values + default} x {-disambiguation: 4 + default} x {-comment: 3 + default} x {-fsyntax-only} x {-dump-ast} x -pp none x %d files (valid, syntax error, semantic error, ambiguity+doc comment, preprocessed .i, error/warning mixtures in both orders per phase) = %d runs (exhaustive); -pp s / r / default through gcc: %s; multi-file and option-override cases; %d malformed or undocumented argument vectors (fixed list + seeded random); non-trivial = distinct documented command lines"
+                    % (len(FILES), npp_none, "160 sampled" if ctx.quick else "complete (%d)" % len(pp_cases), len(cases) - ndoc),
             "samples": [" ".join(cases[k][0]) for k in (3, npp_none // 2, npp_none + 1, ndoc + 3, len(cases) - 1)],
         })
         ctx.notes.update({"property_violations": nviol, "correspondence_disagreements": ncorr, "model_outcomes_seen": sorted(map(str, seen_outcomes))})
